@@ -30,9 +30,11 @@ def gen_spec(rng):
         idx = sorted(rng.sample(range(nx), k))
         coef = [rng.choice([1, 1, 1, -1, 2]) for _ in idx]
         t = round(rng.uniform(-0.5, 3.0), 2)
-        w = rng.choice([1, 1, 1, 2.0, 0.5, 0.1])
+        w = rng.choice([1, 1, 1, 2.0, 0.5, 0.1, 0])
         lim = rng.choice([None, None, None, round(rng.uniform(0.5, 3), 1)])
-        spec["errs"].append({"idx": idx, "coef": coef, "t": t, "w": w, "lim": lim})
+        # optional continuous slack in [0, 1] with a cost (a non-binary variable with binary-looking bounds)
+        slack = rng.choice([None, None, None, 0.3, 1.5])
+        spec["errs"].append({"idx": idx, "coef": coef, "t": t, "w": w, "lim": lim, "slack": slack})
     spec["cost"] = [rng.choice([0, 0, 0.1, 0.5, 1.0, 21.0]) for _ in range(nx)]
     spec["names"] = rng.choice(["plain", "aldy"])
     return spec
@@ -64,16 +66,23 @@ def build(spec, solver="any"):
         prods.append(r)
     x = b + prods
     errs = []
+    slack_cost = []
     for ei, e in enumerate(spec["errs"]):
         lim = e["lim"]
         v = m.addVar(lb=-m.INF if lim is None else -lim, ub=m.INF if lim is None else lim,
                      name=f"E_{ei}_T>A")
         expr = m.quicksum(c * x[i] for i, c in zip(e["idx"], e["coef"]))
+        if e.get("slack") is not None:
+            sv = m.addVar(lb=0, ub=1, name=f"S_{ei}")
+            expr = expr + sv
+            slack_cost.append(e["slack"] * sv)
         m.addConstr(expr + v <= e["t"], name=f"CFUNC_{ei}")
         m.addConstr(expr + v >= e["t"], name=f"CFUNC_{ei}")
         errs.append(v)
     coeffs = {m.varName(v): e["w"] for v, e in zip(errs, spec["errs"])}
     obj = m.abssum(errs, coeffs=coeffs)
+    if slack_cost:
+        obj += m.quicksum(slack_cost)
     obj += m.quicksum(c * v for c, v in zip(spec["cost"], x) if c)
     m.setObjective(obj)
     return m, b, prods, errs
@@ -99,11 +108,23 @@ def semantic_table(spec, names_b, names_p):
         x = list(bits) + pv
         obj = 0.0
         for e in spec["errs"]:
-            err = e["t"] - sum(c * x[i] for i, c in zip(e["idx"], e["coef"]))
-            if e["lim"] is not None and abs(err) > e["lim"] + 1e-9:
+            base = e["t"] - sum(c * x[i] for i, c in zip(e["idx"], e["coef"]))
+            cands = [0.0]
+            if e.get("slack") is not None:
+                cands = [0.0, 1.0, min(1.0, max(0.0, base))]
+                if e["lim"] is not None:
+                    cands += [min(1.0, max(0.0, base - e["lim"])), min(1.0, max(0.0, base + e["lim"]))]
+            best = None
+            for sv in cands:
+                err = base - sv
+                if e["lim"] is not None and abs(err) > e["lim"] + 1e-9:
+                    continue
+                val = e["w"] * abs(err) + (e["slack"] or 0) * sv
+                best = val if best is None else min(best, val)
+            if best is None:
                 ok = False
                 break
-            obj += e["w"] * abs(err)
+            obj += best
         if not ok:
             continue
         obj += sum(c * v for c, v in zip(spec["cost"], x))
